@@ -388,6 +388,11 @@ func runPoolProfile(profile string, thorough bool, seed int64, out string) (*Sta
 			PoolCycles(pw, ty, 1+i%4, i%3, 2+i%5, 40)
 			st.Extra["cycles"] += 40
 		}
+		// larger pools (total capacity >= 256, up to thousands of samples)
+		for i, sh := range [][3]int{{1, 0, 256}, {2, 16, 512}, {3, 0, 1000}, {1, 255, 255}, {8, 0, 400}} {
+			PoolCycles(pw, BuiltinTypes[(i*3)%13], sh[0], sh[1], sh[2], 10)
+			st.Extra["cycles"] += 10
+		}
 	case "poolforeign":
 		for _, ty := range BuiltinTypes {
 			st.Extra["foreign_puts"] += PoolForeign(pw, rng, ty)
